@@ -333,3 +333,70 @@ func Blake2Xb(xofLen uint32, key, msg []byte, n int) []byte {
 func Blake2Xs(xofLen uint16, key, msg []byte, n int) []byte {
 	return append([]byte{}, NewB2XStream(true, uint32(xofLen), key, msg).Upto(n)...)
 }
+
+// ---------------------------------------------------------------------------
+// Resuming from an explicit chaining value and byte counter (the compression
+// function takes the counter as an input, RFC 7693 §3.2), used to continue
+// marshaled states whose counter sits next to a carry.
+
+// Blake2sResume finishes a BLAKE2s computation whose chaining value is h after
+// t bytes have been compressed; data is everything not yet compressed (the
+// buffered bytes followed by the later input).
+func Blake2sResume(h [8]uint32, t uint64, data []byte, size int) []byte {
+	for len(data) > 64 {
+		t += 64
+		b2sCompress(&h, data[:64], uint32(t), uint32(t>>32), false)
+		data = data[64:]
+	}
+	var last [64]byte
+	copy(last[:], data)
+	t += uint64(len(data))
+	b2sCompress(&h, last[:], uint32(t), uint32(t>>32), true)
+	var out [32]byte
+	for i, x := range h {
+		binary.LittleEndian.PutUint32(out[4*i:], x)
+	}
+	return append([]byte{}, out[:size]...)
+}
+
+// Blake2bResume is the BLAKE2b counterpart; the counter is 128 bits (tlo, thi).
+func Blake2bResume(h [8]uint64, tlo, thi uint64, data []byte, size int) []byte {
+	add := func(n uint64) {
+		old := tlo
+		tlo += n
+		if tlo < old {
+			thi++
+		}
+	}
+	for len(data) > 128 {
+		add(128)
+		b2bCompress(&h, data[:128], tlo, thi, false)
+		data = data[128:]
+	}
+	var last [128]byte
+	copy(last[:], data)
+	add(uint64(len(data)))
+	b2bCompress(&h, last[:], tlo, thi, true)
+	var out [64]byte
+	for i, x := range h {
+		binary.LittleEndian.PutUint64(out[8*i:], x)
+	}
+	return append([]byte{}, out[:size]...)
+}
+
+// Blake2sInit / Blake2bInit give the initial chaining value of sequential unkeyed hashing.
+func Blake2sInit(size int) (h [8]uint32) {
+	pb := b2sBlock(Seq(size, nil))
+	for i := range h {
+		h[i] = b2sIV[i] ^ binary.LittleEndian.Uint32(pb[4*i:])
+	}
+	return
+}
+
+func Blake2bInit(size int) (h [8]uint64) {
+	pb := b2bBlock(Seq(size, nil))
+	for i := range h {
+		h[i] = b2bIV[i] ^ binary.LittleEndian.Uint64(pb[8*i:])
+	}
+	return
+}
